@@ -312,5 +312,6 @@ def obligations(tier):
 MANIFEST_ENTRY = {
     'level_note': ('O1 on the real record reader with symbolic alt-loc characters; O2 on the real top-up code with atom presence chosen by fork '
                    '(bounded exhaustive over presence patterns, 2 conformations quick / 3 thorough); O3/O4 on average_of_conformations with '
-                   'symbolic values and group presence chosen by fork.'),
+                   'symbolic values and group presence chosen by fork.'
+                   ' O5: whole pipeline on 1-3 identical conformations incl. two same-named hetero groups in one chain: the average is the conformation, partner by partner.'),
 }
